@@ -933,8 +933,28 @@ class World:
             'newc': self.add_container, 'kept': self.reuse_kept_slice,
         }
         w = weights or {'cc': 4, 'cp': 4, 'pc': 2, 'pp': 3, 'remove': 1, 'fill': 2, 'observe': 1, 'newc': 1}
+        if rng.random() < 0.04:
+            self.twin()
         k = rng.choices(list(w.keys()), list(w.values()))[0]
         return k, ops[k]()
+
+    def twin(self):
+        """A replicate: a second, distinct object with the same name and - for now - the same state as an existing plate or
+        container (what running the same preparation twice gives).  Equal is not identical: operations between the two,
+        and on one of them, must treat them as two objects."""
+        import copy
+        rng = self.rng
+        names = [n for n in self.objs if '~' not in n]
+        if not names or sum(1 for n in self.objs if '~' in n) >= 2:
+            return None
+        n = rng.choice(self.plates() or names) if rng.random() < 0.7 else rng.choice(names)
+        if '~' in n:
+            return None
+        with M.oracle():
+            self.objs[n + '~twin'] = copy.deepcopy(self.objs[n])
+        M.bucket('twin/' + type(self.objs[n]).__name__)
+        self.log.append({'op': 'twin', 'of': n})
+        return self.objs[n + '~twin']
 
     def populate(self, n_containers=None, n_plates=None, fill_plates=True):
         rng = self.rng
